@@ -4070,5 +4070,28 @@ def gen_PyIdioms(repo):
         inv.sort()
         L.append("def inv_%s : List (String × String) := %s" % (rel[:-3], lean_list(
             ["(%s, %s)" % (lean_str(k), lean_str(t)) for _, _, k, t in inv])))
+        # ownership: calls that alias an array instead of copying it, and (function, call) of every explicit copy
+        views, copies = [], []
+
+        def walk_fn(node, qual):
+            for ch in ast.iter_child_nodes(node):
+                if isinstance(ch, (ast.FunctionDef, ast.ClassDef)):
+                    walk_fn(ch, (qual + "." if qual else "") + ch.name)
+                else:
+                    for n2 in ([ch] if isinstance(ch, ast.Call) else []) + [x for x in ast.walk(ch) if isinstance(x, ast.Call) and x is not ch]:
+                        f = re.sub(r"\s+", "", ast.unparse(n2.func))
+                        if f in ("np.asarray", "numpy.asarray", "np.frombuffer", "np.asanyarray", "memoryview", "np.ascontiguousarray",
+                                 "np.ctypeslib.as_array") or f.endswith(".view") or f.endswith(".reshape") and False:
+                            views.append((n2.lineno, n2.col_offset, qual, re.sub(r"\s+", "", ast.unparse(n2))))
+                        if f.endswith(".copy") or f.endswith("deepcopy"):
+                            copies.append((n2.lineno, n2.col_offset, qual, re.sub(r"\s+", "", ast.unparse(n2))))
+                    # nested defs inside statements (rare) are reached by ast.walk above
+        walk_fn(src.tree, "")
+        views.sort()
+        copies.sort()
+        L.append("def views_%s : List (String × String) := %s" % (rel[:-3], lean_list(
+            ["(%s, %s)" % (lean_str(q), lean_str(t)) for _, _, q, t in views])))
+        L.append("def copies_%s : List (String × String) := %s" % (rel[:-3], lean_list(
+            ["(%s, %s)" % (lean_str(q), lean_str(t)) for _, _, q, t in copies])))
     L.append("\nend Strengths.Gen.PyIdioms")
     return "\n".join(L) + "\n"
